@@ -601,7 +601,7 @@ func init() {
 	}
 }
 
-func vid(v ssa.Value) int { return int(v.ID()) }
+func rid(v ssa.Value) int { return int(v.ID()) }
 
 func vids(vs []ssa.Value) []int {
 	out := make([]int, len(vs))
@@ -623,14 +623,19 @@ type rblk struct {
 	ins    []*rinst
 }
 
+// resolver maps an operand to what the alias table resolves it to (identity without the hook)
+var resolver = func(v ssa.Value) ssa.Value { return v }
+
+func vid(v ssa.Value) int { return int(resolver(v).ID()) }
+
 func renderInstr(cur *ssa.Instruction) *rinst {
 	i := &rinst{gid: uint32(cur.GroupID())}
 	op := cur.Opcode()
 	r1, rest := cur.Returns()
 	if r1.Valid() {
-		i.rs = append(i.rs, pv{vid(r1), r1.Type()})
+		i.rs = append(i.rs, pv{rid(r1), r1.Type()})
 		for _, r := range rest {
-			i.rs = append(i.rs, pv{vid(r), r.Type()})
+			i.rs = append(i.rs, pv{rid(r), r.Type()})
 		}
 		i.ty = r1.Type()
 	}
@@ -700,7 +705,7 @@ func render(b ssa.Builder) []*rblk {
 		rb := &rblk{id: int(bb.ID())}
 		for k := 0; k < bb.Params(); k++ {
 			p := bb.Param(k)
-			rb.params = append(rb.params, pv{vid(p), p.Type()})
+			rb.params = append(rb.params, pv{rid(p), p.Type()})
 		}
 		for cur := bb.Root(); cur != nil; cur = cur.Next() {
 			rb.ins = append(rb.ins, renderInstr(cur))
@@ -985,7 +990,11 @@ func checkStages(f *fn, text string, keys map[int]int, verbose bool) bool {
 				}
 			}
 			runPass(bt.b, name)
-			real := blockTokens(render(bt.b), keys, name == "dce")
+			// every operand resolved through the alias table, as in `c01ssa stages`
+			resolver = func(v ssa.Value) ssa.Value { return resolveAlias(bt.b, v) }
+			rs := render(bt.b)
+			resolver = func(v ssa.Value) ssa.Value { return v }
+			real := blockTokens(rs, keys, name == "dce")
 			model := splitBlocks(stages[k])
 			if verbose {
 				fmt.Println("after", name, "real :", flat(real))
